@@ -244,6 +244,14 @@ let run (cols : string array) : string =
       let rec split acc l = match l with c :: r when is_ws c -> split (c :: acc) r | _ -> (List.rev acc, l) in
       let (w, _) = split [] text in
       if is_canonical text w crlf toks then "CANON\t1" else "CANON\t0"
+  | "specmatch" ->
+      (* is this tag sequence a word of the type's specification (gen/Specs.v)?  cols: type, tags (hex;hex;...) *)
+      let t = unhex cols.(1) in
+      let tags = if Array.length cols > 2 && cols.(2) <> "" then List.map unhex (String.split_on_char ';' cols.(2)) else [] in
+      let rec find l = match l with [] -> None | (k, r) :: rest -> if k = t then Some r else find rest in
+      (match find specs with
+       | None -> "NOSPEC"
+       | Some r -> (if matchb r tags then "MEMBER\t1" else "MEMBER\t0") ^ (if List.mem t inclusion_open then "\topen" else "\tproved"))
   | "extract" ->
       (match extract_field_content (unhex cols.(1)) (unhex cols.(2)) with
        | None -> "NONE"
